@@ -38,7 +38,9 @@ CONSTANTS Vers,        \* subset of {"sasl","sasl2"}
           MaxHist      \* bound on behaviour length (generator configurations only)
 
 VARIABLES c,          \* the connection: [phase, authed, res, st, ver, xuser, b2]
-          pending,    \* checker requests not yet answered: [op, user, ok, stale, ver]
+          pending,    \* checker requests not yet answered: [op, user, ok, cr, stale, ver]; cr = the credential
+                      \* class that asked: classes the model treats alike (same user, same verdict) may
+                      \* differ in the implementation, so the generators must not merge their states
           routes,     \* full JIDs registered for routing (QXmppServerPrivate::incomingClientsByJid)
           approved,   \* ghost: users for whom the checker/digest verification approved an exchange on this connection
           proved,     \* ghost: users whose right password the client has presented so far
@@ -159,7 +161,7 @@ Open(dom) ==
 (* --- <auth/> / <authenticate/> ------------------------------------------- *)
 Auth(v, m, cr, b) ==
     LET h == [a |-> "Auth", ver |-> v, mech |-> m, cred |-> cr, b2 |-> b]
-        ask == Append(StaleAll(pending), [op |-> "check", user |-> UserOf(cr), ok |-> Right(cr), stale |-> FALSE, ver |-> v])
+        ask == Append(StaleAll(pending), [op |-> "check", user |-> UserOf(cr), ok |-> Right(cr), cr |-> cr, stale |-> FALSE, ver |-> v])
     IN
     /\ c.phase = "open"
     /\ (b => v = "sasl2") /\ (m # "PLAIN" => cr = "empty")
@@ -192,7 +194,7 @@ Response(v, cr) ==
          [] mine /\ c.st = "plainWait" /\ Asks(cr) ->
                 /\ Len(pending) < MaxPending
                 /\ Step(h, [c EXCEPT !.st = "check", !.xuser = UserOf(cr)],
-                        Append(pending, [op |-> "check", user |-> UserOf(cr), ok |-> Right(cr), stale |-> FALSE, ver |-> c.ver]),
+                        Append(pending, [op |-> "check", user |-> UserOf(cr), ok |-> Right(cr), cr |-> cr, stale |-> FALSE, ver |-> c.ver]),
                         routes, approved, <<>>, <<>>, <<>>)
          [] mine /\ c.st = "check" -> CloseWith(h, <<Fail(v)>>)   \* PLAIN server object is past its only step
          [] mine /\ c.st \in {"digestWait", "digestCheck"} /\ cr \in {"empty", "malformed"} -> CloseWith(h, <<Fail(v)>>)
@@ -201,7 +203,7 @@ Response(v, cr) ==
                 \* the digest of the named user is requested; verification happens when it arrives
                 /\ Len(pending) < MaxPending
                 /\ Step(h, [c EXCEPT !.st = "digestCheck"],
-                        Append(pending, [op |-> "digest", user |-> UserOf(cr), ok |-> Right(cr), stale |-> FALSE, ver |-> c.ver]),
+                        Append(pending, [op |-> "digest", user |-> UserOf(cr), ok |-> Right(cr), cr |-> cr, stale |-> FALSE, ver |-> c.ver]),
                         routes, approved, <<>>, <<>>, <<>>)
          [] mine /\ c.st = "digestFinal" -> Accept(h, c.xuser, pending, v)   \* client acknowledges rspauth
 
